@@ -734,13 +734,16 @@ def mon_c10(ex, info, col):
     # (forward, backward with or without reversal, reversed by hand): every in-range entry names a step at which everybody is logged ABSENCE at no cost
     if not ex.opts.get("post_insert") and not ex.opts.get("post_remove") and ex.error is None:
         for k in sorted(set(p.absence_time_list)):
-            if not isinstance(k, int) or k < 0 or k >= n:
+            if not isinstance(k, int) or k < -n or k >= n:
                 continue
+            stored_k = k
+            if k < 0:
+                k = n + k  # (a negative entry is an index too: it is the step counted from the end that remove_absence_time_list() would delete)
             col.checks["c10.stored-list-vs-logs"] += 1
             bad = [rn for rn in list(info.workers) + list(info.facilities) if k < len(ex.m.byname[rn].state_record_list) and int(ex.m.byname[rn].state_record_list[k]) != S.R_ABSENCE]
             if bad or p.cost_list[k] != 0.0:
                 out.append(V("C10", "C10:stored-absence-list-names-a-step-that-is-not-an-absence-step-in-the-logs", ex,
-                             {"k": k, "stored_list": list(p.absence_time_list), "resources_not_ABSENCE": bad[:4], "project_cost": p.cost_list[k]}))
+                             {"k": stored_k, "stored_list": list(p.absence_time_list), "resources_not_ABSENCE": bad[:4], "project_cost": p.cost_list[k]}))
     return out
 
 
